@@ -56,12 +56,22 @@ fn fen_empty_squares(input: &str) -> IResult<&str, Vec<Option<Piece>>> {
 }
 
 fn fen_line(input: &str) -> IResult<&str, FenRank> {
-    let (input, squares) = many1(alt((
+    let (rest, squares) = many1(alt((
         map(fen_piece, |p| vec![Some(p); 1]),
         fen_empty_squares,
     )))(input)?;
 
-    Ok((input, FenRank(squares.concat())))
+    let squares = squares.concat();
+
+    // Every rank must describe exactly eight squares
+    if squares.len() != File::N {
+        return Err(nom::Err::Error(nom::error::Error::new(
+            input,
+            nom::error::ErrorKind::Verify,
+        )));
+    }
+
+    Ok((rest, FenRank(squares)))
 }
 
 fn fen_position(input: &str) -> IResult<&str, Board> {
@@ -241,7 +251,11 @@ fn fen_parser(input: &str) -> IResult<&str, Game> {
 
 #[inline(always)]
 fn plies_from_fullmove_number(fullmove_number: u32, player: Player) -> u32 {
-    (fullmove_number - 1) * 2 + u32::from(player == Player::Black)
+    // Fullmove numbers start at 1, but 0 is seen in the wild; huge values must not overflow
+    fullmove_number
+        .saturating_sub(1)
+        .saturating_mul(2)
+        .saturating_add(u32::from(player == Player::Black))
 }
 
 pub fn parse(input: &str) -> Result<Game, String> {
